@@ -29,6 +29,14 @@ using namespace bpp;
 using namespace std;
 
 
+// Content of a parenthesised list argument, e.g. "(0.1,0.9)".
+static string listContent_(const string& arg, const string& argName)
+{
+  if (arg.size() < 2 || arg[0] != '(' || arg[arg.size() - 1] != ')')
+    throw Exception("BppODiscreteDistributionFormat::read. Argument '" + argName + "' must be a list between parentheses, found '" + arg + "'.");
+  return arg.substr(1, arg.size() - 2);
+}
+
 unique_ptr<DiscreteDistributionInterface> BppODiscreteDistributionFormat::readDiscreteDistribution(
     const std::string& distDescription,
     bool parseArguments)
@@ -79,12 +87,12 @@ unique_ptr<DiscreteDistributionInterface> BppODiscreteDistributionFormat::readDi
     vector<double> probas, values;
 
     string rf = args["values"];
-    StringTokenizer strtok(rf.substr(1, rf.length() - 2), ",");
+    StringTokenizer strtok(listContent_(rf, "values"), ",");
     while (strtok.hasMoreToken())
       values.push_back(TextTools::toDouble(strtok.nextToken()));
 
     rf = args["probas"];
-    StringTokenizer strtok2(rf.substr(1, rf.length() - 2), ",");
+    StringTokenizer strtok2(listContent_(rf, "probas"), ",");
     while (strtok2.hasMoreToken())
       probas.push_back(TextTools::toDouble(strtok2.nextToken()));
 
@@ -93,7 +101,7 @@ unique_ptr<DiscreteDistributionInterface> BppODiscreteDistributionFormat::readDi
     if (args.find("ranges") != args.end())
     {
       string rr = args["ranges"];
-      StringTokenizer strtok3(rr.substr(1, rr.length() - 2), ",");
+      StringTokenizer strtok3(listContent_(rr, "ranges"), ",");
       string desc;
       double deb, fin;
       unsigned int num;
@@ -133,7 +141,7 @@ unique_ptr<DiscreteDistributionInterface> BppODiscreteDistributionFormat::readDi
     vector<unique_ptr<DiscreteDistributionInterface>> v_pdd;
     unique_ptr<DiscreteDistributionInterface> pdd;
     string rf = args["probas"];
-    StringTokenizer strtok2(rf.substr(1, rf.length() - 2), ",");
+    StringTokenizer strtok2(listContent_(rf, "probas"), ",");
     while (strtok2.hasMoreToken())
       probas.push_back(TextTools::toDouble(strtok2.nextToken()));
 
